@@ -52,6 +52,20 @@ pub struct Spec {
     pub comp: Comp,
     pub items: Vec<Item>,
     pub extra_packs: u16,
+    /// pack ids are the caller's choice and need not be dense: the extra pack with logical number
+    /// `l` (2..) gets the id `l + id_gap * (l - 1)`  (0 = dense ids 2, 3, …)
+    pub id_gap: u16,
+}
+
+impl Spec {
+    /// the pack id of logical pack `l` (0/1 = the main content pack)
+    pub fn pack_id(&self, l: u16) -> u16 {
+        if l <= 1 {
+            1
+        } else {
+            l + self.id_gap * (l - 1)
+        }
+    }
 }
 
 struct Store {
@@ -102,7 +116,7 @@ pub fn build_with_progress(
         let file: Box<dyn jbk::creator::PackRecipient> = file;
         let c = jbk::creator::ContentPackCreator::new_from_output(
             file,
-            jbk::PackId::from(k + 2),
+            jbk::PackId::from(spec.pack_id(k + 2)),
             util::VENDOR,
             Default::default(),
             spec.comp.to_jbk(),
@@ -212,7 +226,7 @@ pub fn expected_dump(spec: &Spec) -> Vec<String> {
     let mut out = vec![format!("count {}", spec.items.len())];
     let mut next: HashMap<u16, u32> = HashMap::new();
     for (i, it) in spec.items.iter().enumerate() {
-        let pack = if it.pack <= 1 { 1 } else { it.pack };
+        let pack = spec.pack_id(it.pack);
         let id = next.entry(pack).or_insert(0);
         out.push(format!(
             "e{} name={} num={} addr={}:{} data={}:{:016x}",
@@ -319,7 +333,9 @@ pub fn random_spec(rng: &mut crate::rng::Rng, mode: Mode, comp: Comp, max_items:
         let pack = if extra_packs > 0 && rng.chance(1, 3) { 2 + rng.below(extra_packs as u64) as u16 } else { 1 };
         items.push(Item { name, num: rng.next() >> rng.below(64), data, hint, pack });
     }
-    Spec { mode, comp, items, extra_packs }
+    // derived from the content, not drawn: keeps the random stream of every caller as it was
+    let id_gap = if extra_packs > 0 { [0u16, 0, 1, 6][(crate::out::fnv(&items[0].data) % 4) as usize] } else { 0 };
+    Spec { mode, comp, items, extra_packs, id_gap }
 }
 
 /// for every content pack found in every file of `dir`, write the decompressed compressed clusters
